@@ -28,10 +28,11 @@ item  := {'t':'mark','id':n}                      emits the 16-bit marker n (low
 cond  := ['expr',e] | ['def',name,neg] | ['used',name,neg] | ['exist',name,neg,quoted] | ['blank',[arg,..],neg]
 arg   := ['txt',s] | ['param',p]                  (s may be '')
 e     := ['int',n] | ['flt',x] | ['str',s] | ['sym',name] | ['param',p] | ['cmp',op,e,e]
-       | ['not',e] | ['and',e,e] | ['or',e,e]
+       | ['not',e] | ['and',e,e] | ['or',e,e] | ['band',e,e]          (band: binary AND '&' of two integers)
 opd   := ['int',n] | ['flt',x] | ['str',s] | ['sym',name] | ['param',p] | ['add',opd,opd]
 
 Semantics taken from the manual:
+ * IF: 'true' is any value different from 0 (not only 1, not only the low byte).
  * IF: the first block whose IF/ELSEIF expression is true (not 0) is assembled, all others are skipped; the
    block of a parameterless ELSEIF (or ELSE) is assembled only if all previous expressions were false.
  * IFDEF/IFNDEF: symbol defined before the statement; IFUSED/IFNUSED: referenced at least once up to now;
@@ -93,6 +94,8 @@ def r_expr(e, top=True):
         s = '%s||%s' % (r_expr(e[1], False), r_expr(e[2], False))
     elif k == 'add':
         s = '%s+%s' % (r_expr(e[1], False), r_expr(e[2], False))
+    elif k == 'band':
+        s = '%s&%s' % (r_expr(e[1], False), r_expr(e[2], False))
     else:
         raise ModelError('expr ' + repr(e))
     return s if top else '(%s)' % s
@@ -103,6 +106,10 @@ def r_arg(a):
         return ''
     if a[0] == 'txt':
         return a[1]
+    if a[0] == 'int' and a[1] < 0:
+        # macro arguments are inserted textually: an unparenthesised negative number would change the meaning of the
+        # expression it lands in (~~-256 is not ~~(-256): unary minus is parsed like a binary operator)
+        return '(%d)' % a[1]
     return r_expr(a)
 
 
@@ -218,6 +225,7 @@ class Result:
         self.exitm_unwound = 0  # number of open constructs discarded by executed EXITMs
         self.stmts = set()      # statement kinds executed (for the evidence)
         self.passes = 1         # passes the assembler needs
+        self.ifvals = set()     # classes of the operand values of evaluated IF/ELSEIF expressions
 
 
 def collect(items, fn):
@@ -262,6 +270,20 @@ def kind_of(it):
     if it['t'] == 'if':
         return head_name(it['head'])
     return 'SWITCH-' + it['styp']
+
+
+def value_class(v):
+    """coarse class of an IF/ELSEIF operand value (evidence of reach)"""
+    if v == 0:
+        return '0'
+    if v == 1:
+        return '1'
+    c = 'neg' if v < 0 else ('>=2^31' if v >= 2 ** 31 else ('>=2^16' if v >= 2 ** 16 else ('>=2^8' if v >= 256 else '2..255')))
+    if v & 0xffff == 0:
+        c += ',low16=0'
+    elif v & 0xff == 0:
+        c += ',low8=0'
+    return c
 
 
 class Machine:
@@ -311,6 +333,11 @@ class Machine:
             return self.value(b)
         if k == 'add':
             return self.value(e[1]) + self.value(e[2])
+        if k == 'band':
+            a, b = self.value(e[1]), self.value(e[2])
+            if not (isinstance(a, int) and isinstance(b, int)):
+                raise ModelError('binary AND of non-integers')
+            return a & b
         if k == 'cmp':
             a, b = self.value(e[2]), self.value(e[3])
             if isinstance(a, str) != isinstance(b, str):
@@ -334,6 +361,10 @@ class Machine:
             v = self.value(c[1])
             if not isinstance(v, int):
                 raise ModelError('IF with a non-integer expression')
+            if not (-2 ** 31 <= v < 2 ** 32):
+                # the assembler range-checks the operand ('range overflow'); the manual gives no range: not generated
+                raise ModelError('IF operand outside 32 bits')
+            self.res.ifvals.add(value_class(v))
             return v != 0
         if k == 'def':
             return (c[1].upper() in self.res.defined) != bool(c[2])
